@@ -295,7 +295,9 @@ func (x *Exec) evalBinary(n *ast.BinaryExpr, st *State) (Val, *State) {
 			x.c.obligeAssume("div0", "", st.pc, tNot(tEq(rs.T, "0")), n.Pos(), "division by zero")
 		}
 	}
-	return Sc{x.arithE(n.Op.String(), ls.T, rs.T, resT, n.X, n.Y), ls.S}, st
+	res := x.arithE(n.Op.String(), ls.T, rs.T, resT, n.X, n.Y)
+	x.overflowCheck(n.Op.String(), res, resT, st, n.Pos(), x.src(n))
+	return Sc{res, ls.S}, st
 }
 
 func toReal(s Sc) string {
@@ -852,6 +854,10 @@ func (x *Exec) assign(lhs ast.Expr, v Val, st *State) *State {
 		if v == nil {
 			v = x.c.zeroVal(obj.Type(), nil)
 		}
+		if gv, ok := obj.(*types.Var); ok && gv.Pkg() != nil && gv.Parent() == gv.Pkg().Scope() {
+			x.c.globalWrites = append(x.c.globalWrites, gv.Name())
+			x.c.globalWritePos = n.Pos()
+		}
 		st.vars[obj] = v
 		return st
 	case *ast.IndexExpr:
@@ -881,6 +887,10 @@ func (x *Exec) assign(lhs ast.Expr, v Val, st *State) *State {
 		sel := x.info.Selections[n]
 		if sel == nil {
 			obj := x.info.Uses[n.Sel]
+			if gv, ok := obj.(*types.Var); ok {
+				x.c.globalWrites = append(x.c.globalWrites, gv.Pkg().Name()+"."+gv.Name())
+				x.c.globalWritePos = n.Pos()
+			}
 			st.vars[obj] = v
 			return st
 		}
@@ -1167,4 +1177,25 @@ func (x *Exec) globalVal(o *types.Var, st *State) Val {
 	}
 	st.vars[o] = v
 	return v
+}
+
+// overflowCheck: + - * on 64-bit signed integers must stay within int64 (Go
+// wraps silently; the engine computes in mathematical integers, so a wrap
+// would make the proof say nothing about the real code). Lengths are assumed
+// <= 2^56 (address space), every other int64 value may be extreme.
+func (x *Exec) overflowCheck(op, res string, t types.Type, st *State, pos token.Pos, src string) {
+	if !x.c.eng.ovf || x.c.bv || st == nil || t == nil {
+		return
+	}
+	if op != "+" && op != "-" && op != "*" {
+		return
+	}
+	b, ok := t.Underlying().(*types.Basic)
+	if !ok || (b.Kind() != types.Int && b.Kind() != types.Int64) {
+		return
+	}
+	if _, lit := isIntLit(res); lit {
+		return
+	}
+	x.c.obligeAssume("ovf", "", st.pc, tAnd(tLe("(- 9223372036854775808)", res), tLe(res, "9223372036854775807")), pos, "no int64 overflow: "+src)
 }
